@@ -1,7 +1,7 @@
 (* C12 - SD-JWTs the specification says must be rejected are rejected. *)
 From Coq Require Import List String Ascii Bool Arith.
 Import ListNotations.
-Require Import SDJ.Json SDJ.Wire SDJ.Model2 SDJ.Out SDJ.Restore2 SDJ.Split SDJ.SplitM SDJ.Verify SDJ.C12Proofs.
+Require Import SDJ.Json SDJ.Wire SDJ.Model2 SDJ.Out SDJ.Restore2 SDJ.Split SDJ.SplitM SDJ.Verify SDJ.C12Proofs SDJ.T2n SDJ.C12Tree.
 Local Open Scope string_scope.
 
 (* a presented string that is not a JSON array of 2 or 3 elements rejects the whole presentation,
@@ -72,3 +72,16 @@ Print Assumptions C12_unsupported_alg_holder.
 Theorem C12_alg_names : forall a alg, parse_halg a = Some alg -> a = "sha-256" \/ a = "sha-384" \/ a = "sha-512".
 Proof. exact parse_halg_some. Qed.
 Print Assumptions C12_alg_names.
+
+(* whole tree, any depth: whenever restore_disclosures (hence Holder::verify, Verifier::verify,
+   Holder::presentation in the model) accepts, the restored tree contains - anywhere - no _sd that is not an
+   array, no array placeholder with additional members, and no digest embedded more than once *)
+Theorem C12_accept_implies_clean :
+  forall (H : string -> string) (dec : string -> dec_result) (show_nat : nat -> string) claims L c ps,
+    restore_disclosures H dec show_nat claims L = Ok (c, ps) ->
+    NoDup (cdigs c) /\
+    forall v, sub v c ->
+      (forall kvs sd, v = JObj kvs -> obj_get "_sd" kvs = Some sd -> exists xs, sd = JArr xs) /\
+      (forall xs kvs d, v = JArr xs -> In (JObj kvs) xs -> obj_get "..." kvs = Some d -> List.length kvs = 1).
+Proof. exact accepted_tree_is_clean. Qed.
+Print Assumptions C12_accept_implies_clean.
